@@ -157,6 +157,17 @@ CHECKS["C19"] = dict(
     note="Bound: 4 nodes (the property mentions up to 6), cut at every position of the reply + receive sizes 4 and 7. " + NETNOTE,
     design="3 (C19)", technique=CH)
 
+CHECKS["C11"] = dict(
+    text="Bounded symbolic execution of the real RendezvousHash with a hash function whose per-node scores are symbolic "
+         "32-bit values (so every hash function, forced ties included): for every insertion order and every add/remove "
+         "history (lookup after each event) get_node equals the independent argmax by (score, name) over the current node "
+         "set - hence order- and history-independence and minimal disruption. Node-name spellings, the published murmur3 "
+         "rule on enumerated node sets/keys/seeds (also through HashClient routing) and z3 witnesses (a key for every "
+         "node, found by running the real murmur3 on bit-vector proxies) complete it. All shards exhaust.",
+    note="Bound: <= 5 nodes with symbolic scores, histories of 3 (4) events. Statistical balance and the PYTHONHASHSEED sweep "
+         "are outside what a solver decides (process independence follows from result == closed function, with C14).",
+    design="3 (C11)", technique=CH + "; z3 QF_BV witnesses via the bit-vector proxy engine")
+
 NOT_YET = {}
 
 NA_REASON_PENDING = "check not built yet in this session (planned; see DESIGN.md section 3)"
